@@ -276,4 +276,33 @@ def scriptList (fs : Feats) : List Key := (triples fs).mergeSort keyLe
 def reach (i : In) : Except Err (List Key) :=
   if checkLangsys i.langsys [] false then .ok (scriptList (build (assemble i))) else .error .featureLib
 
+/-! ### (c) designspace builds: rule substitutions handed to the writers' script classification
+
+`_compilers/baseCompiler.py: BaseInterpolatableCompiler._pre_compile_designspace` turns the designspace `<rules>`
+into `extraSubstitutions` (a `defaultdict(set)`: glyph -> glyphs it can be replaced by under some rule), and
+`util.classifyGlyphs(..., extra_substitutions)` (called by the kern/curs/mark writers) adds, to the glyph set of
+every Unicode script, the rule alternates of its members (one step, no closure).  Sets are duplicate-free lists. -/
+
+/-- a designspace rule's `subs`: (glyph, replacement) pairs -/
+abbrev Rule := List (String × String)
+/-- glyph -> set of glyphs -/
+abbrev SubMap := List (String × List String)
+
+/-- `d[left].add(right)` on a `defaultdict(set)` -/
+def subAdd : SubMap → String → String → SubMap
+  | [], l, r => [(l, [r])]
+  | (l', rs) :: t, l, r =>
+    if l' == l then (l', if rs.contains r then rs else rs ++ [r]) :: t else (l', rs) :: subAdd t l r
+
+/-- `for rule in rules: for left, right in rule.subs: extraSubstitutions[left].add(right)` -/
+def extraSubs (rules : List Rule) : SubMap :=
+  rules.foldl (fun acc rule => rule.foldl (fun a s => subAdd a s.1 s.2) acc) []
+
+/-- `extra_substitutions.get(glyph, set())` -/
+def extraGet (m : SubMap) (g : String) : List String := (alookup g m).getD []
+
+/-- the `if extra_substitutions:` step of `classifyGlyphs`: every script's glyph set gains the alternates of its members -/
+def classifyExtra (m : SubMap) (glyphSets : List (Tag × List String)) : List (Tag × List String) :=
+  glyphSets.map (fun sg => (sg.1, sg.2 ++ ((sg.2.flatMap (extraGet m)).eraseDups).filter (fun x => !sg.2.contains x)))
+
 end Ufo2ft.C20
